@@ -650,6 +650,13 @@ class RestAPI(object):
                     )
                     return aws_error("StateMachineDoesNotExist"), 400
 
+                """
+                Work on a copy, so that a request that is rejected further down
+                leaves the stored State Machine exactly as it was. The updated
+                copy replaces the stored item only after all validation passes.
+                """
+                state_machine = dict(state_machine)
+
                 role_arn = params.get("roleArn")
                 if role_arn:
                     if not valid_role_arn(role_arn):
@@ -670,7 +677,7 @@ class RestAPI(object):
                     """
                     if len(definition) == 0 or len(definition) > MAX_STATE_MACHINE_LENGTH:
                         self.logger.error(
-                            "RestAPI UpdateStateMachine: Invalid definition size for State Machine '{}'.".format(name)
+                            "RestAPI UpdateStateMachine: Invalid definition size for State Machine '{}'.".format(state_machine_arn)
                         )
                         return aws_error("InvalidDefinition"), 400
 
@@ -730,7 +737,7 @@ class RestAPI(object):
 
                     if logging_level not in {"OFF", "ALL", "ERROR", "FATAL"}:
                         self.logger.error(
-                            "RestAPI CreateStateMachine: Invalid logging configuration for State Machine '{}'.".format(name)
+                            "RestAPI CreateStateMachine: Invalid logging configuration for State Machine '{}'.".format(state_machine_arn)
                         )
                         return aws_error("InvalidLoggingConfiguration"), 400
 
@@ -748,7 +755,7 @@ class RestAPI(object):
                                 isinstance(destinations , list) and
                                 len(destinations) == 1):
                             self.logger.error(
-                                "RestAPI CreateStateMachine: Invalid logging configuration for State Machine '{}'.".format(name)
+                                "RestAPI CreateStateMachine: Invalid logging configuration for State Machine '{}'.".format(state_machine_arn)
                             )
                             return aws_error("InvalidLoggingConfiguration"), 400
 
